@@ -231,7 +231,7 @@ def coq_eval_cases(prop, corr_module, case_type, cases, check_fn='mismatches', s
     procs = []
     results = [None] * len(shards)
     errors = []
-    def launch(k):
+    def launch(k, limit=900):
         path = os.path.join(d, 's%d.v' % k)
         with open(path, 'w') as f:
             f.write('From TV Require Import Base.I32 %s.\n%s\nOpen Scope Z_scope.\n' % (corr_module, imports))
@@ -239,10 +239,11 @@ def coq_eval_cases(prop, corr_module, case_type, cases, check_fn='mismatches', s
             f.write(';\n'.join(shards[k]))
             f.write('\n].\n')
             f.write('Goal True. let r := eval vm_compute in (%s 0%%N cases) in idtac "@@RESULT" r. exact I. Qed.\n' % check_fn)
-        return subprocess.Popen(['timeout', '900', 'coqc', '-noglob', '-Q', os.path.join(COQ, 'theories'), 'TV', path],
+        return subprocess.Popen(['timeout', str(limit), 'coqc', '-noglob', '-Q', os.path.join(COQ, 'theories'), 'TV', path],
                                 cwd=d, stdout=subprocess.PIPE, stderr=subprocess.STDOUT, text=True)
     pending = list(range(len(shards)))
     running = {}
+    retried = set()
     while pending or running:
         while pending and len(running) < 16:
             k = pending.pop(0)
@@ -253,6 +254,12 @@ def coq_eval_cases(prop, corr_module, case_type, cases, check_fn='mismatches', s
                 del running[k]
                 m = re.search(r'@@RESULT\s*(.*)', out, re.S)
                 if p.returncode != 0 or not m:
+                    if p.returncode == 124 and k not in retried:
+                        # the time limit expired (loaded machine): not a verdict -- run the shard again, alone in its
+                        # slot, with a four times longer limit, before reporting anything
+                        retried.add(k)
+                        running[k] = launch(k, 3600)
+                        continue
                     errors.append('shard %d: coqc failed: %s' % (k, out.strip()[-600:]))
                     results[k] = []
                 else:
